@@ -10,7 +10,7 @@
    (HuffmanTree::deserialize on a table that is not prefix free). *)
 From Coq Require Import Uint63.
 From ZV.Common Require Import Base Run.
-From ZV.C15 Require Import Model ModelBlob ModelIo2 ModelHuff ModelEntropy ModelFiles.
+From ZV.C15 Require Import Model ModelBlob ModelIo2 ModelHuff ModelEntropy ModelFiles ModelB64.
 Open Scope N_scope.
 
 Inductive verdict : Type :=
@@ -94,6 +94,8 @@ Definition run_model2 (env : cenv_t) (pid arg : N) (aux data : list N) : option 
            end
   (* hex_decode(&str): aux = [1] when the bytes are valid UTF-8 (the harness refuses others itself) *)
   | 82 => Some (Exact (match aux with 1 :: _ => hex_dec data | _ => Err 0 end))
+  (* AdaptiveBase64::decode, configuration pid - 150; aux as for 82 *)
+  | 150 | 151 | 152 | 153 => Some (Exact (match aux with 1 :: _ => obsR (b64_dec (pid - 150) data) | _ => Err 0 end))
   | 140 => Some (Exact (mv_cell data))
   | 141 => Some (Exact (ro_cell data))
   | 142 => Some (Exact (dict_deser data))
@@ -119,7 +121,7 @@ Definition run_model2 (env : cenv_t) (pid arg : N) (aux data : list N) : option 
   | _ => None
   end.
 
-Definition model2_ids : list N := [50; 90; 91; 100; 101; 102; 103; 104; 105; 108; 109; 110; 111; 120; 121; 122; 123; 130; 82; 140; 141; 142; 143].
+Definition model2_ids : list N := [50; 90; 91; 100; 101; 102; 103; 104; 105; 108; 109; 110; 111; 120; 121; 122; 123; 130; 82; 140; 141; 142; 143; 150; 151; 152; 153].
 
 Fixpoint match_vals (m v : list Z) : bool :=
   match m, v with
